@@ -260,6 +260,9 @@ class Interp:
             return val
         if isinstance(val, SInt):
             self.oblige('overflow', '%s fits %s' % (what, ctype_name(t)), (val >= lo) & (val <= hi), node)
+            # replay hint: a value just one past the range wraps to a number of the same magnitude, which squares / absolute
+            # values downstream cannot tell apart; counterexamples well outside the range reproduce
+            self.obligations[-1].clear_cut = (val > hi + 1) | (val < lo - 1)
             return val
         return val
 
